@@ -163,12 +163,12 @@ func (h *MultiHandler) Accept(msg *Message) {
 
 	if msg.Broadcast {
 		if err := h.verifyBroadcastMessage(msg); err != nil {
-			h.abort(err, msg.From)
+			h.abortOnMessage(err, msg)
 			return
 		}
 	} else {
 		if err := h.verifyMessage(msg); err != nil {
-			h.abort(err, msg.From)
+			h.abortOnMessage(err, msg)
 			return
 		}
 	}
@@ -181,6 +181,9 @@ func (h *MultiHandler) verifyBroadcastMessage(msg *Message) (err error) {
 	r, ok := h.rounds[msg.RoundNumber]
 	if !ok {
 		return nil
+	}
+	if !h.echoMatches(msg) {
+		return errBroadcastVerification
 	}
 
 	// try to convert the raw message into a round.Message
@@ -216,6 +219,9 @@ func (h *MultiHandler) verifyMessage(msg *Message) (err error) {
 	if !ok {
 		return nil
 	}
+	if !h.echoMatches(msg) {
+		return errBroadcastVerification
+	}
 
 	// exit if we don't yet have the broadcast message
 	if _, ok = r.(round.BroadcastRound); ok {
@@ -242,6 +248,28 @@ func (h *MultiHandler) verifyMessage(msg *Message) (err error) {
 	return nil
 }
 
+var errBroadcastVerification = errors.New("broadcast verification failed")
+
+// echoMatches compares the hash of the previous round's broadcasts carried by msg with our own.
+// It is checked before the content of msg is verified: that verification may depend on what the
+// other parties broadcast in the previous round, and if some party sent different broadcasts to
+// different parties, an honest sender's message would fail it and the sender would be blamed. A
+// mismatch says that two views of the previous round differ, not who cheated, so nobody is named.
+func (h *MultiHandler) echoMatches(msg *Message) bool {
+	previousHash := h.broadcastHashes[msg.RoundNumber-1]
+	return previousHash == nil || bytes.Equal(previousHash, msg.BroadcastVerification)
+}
+
+// abortOnMessage aborts because of an error found while processing msg, blaming its sender
+// unless the error is a mismatch of the broadcast echo.
+func (h *MultiHandler) abortOnMessage(err error, msg *Message) {
+	if errors.Is(err, errBroadcastVerification) {
+		h.abort(err)
+		return
+	}
+	h.abort(err, msg.From)
+}
+
 // recoverAsError turns a panic raised while a peer's message is decoded, verified or stored (a
 // decoder given a null where a point is expected, a verification routine dereferencing a field
 // the message left out) into an error: the session is then aborted and the sender blamed, instead
@@ -258,7 +286,7 @@ func (h *MultiHandler) finalize() {
 		return
 	}
 	if !h.checkBroadcastHash() {
-		h.abort(errors.New("broadcast verification failed"))
+		h.abort(errBroadcastVerification)
 		return
 	}
 
@@ -325,7 +353,7 @@ func (h *MultiHandler) finalize() {
 			}
 			// if false, we aborted and so we return
 			if err = h.verifyBroadcastMessage(m); err != nil {
-				h.abort(err, m.From)
+				h.abortOnMessage(err, m)
 				return
 			}
 		}
@@ -337,7 +365,7 @@ func (h *MultiHandler) finalize() {
 			}
 			// if false, we aborted and so we return
 			if err = h.verifyMessage(m); err != nil {
-				h.abort(err, m.From)
+				h.abortOnMessage(err, m)
 				return
 			}
 		}
